@@ -608,6 +608,17 @@ def det_shared_state(repo, roots, oid="DET.shared-state", tier="quick", floor=8)
         if not problems:
             obs.append(ob_ok(oid, fi, construct="no state outliving the call", instance=fi.qualname,
                              reason="no class-level or module-level container is mutated, no global is rebound, nothing is memoised"))
+    # module-level names bound to a memoising wrapper, e.g. parser = lru_cache(None)(partial(...))
+    for mname in sorted({fq.split(":")[0] for fq in reach}):
+        m = repo.module(mname)
+        for st in m.tree.body:
+            if isinstance(st, ast.Assign) and isinstance(st.value, ast.Call):
+                inner = st.value.func
+                txt = ast.unparse(inner.func if isinstance(inner, ast.Call) else inner)
+                if "lru_cache" in txt or txt.split(".")[-1] in ("cache", "memoize", "memoized", "cached"):
+                    obs.append(ob_fail(oid, where="%s:%d" % (m.relpath, st.lineno), construct="%s = %s(...)" % (ast.unparse(st.targets[0]), txt), instance=mname + ":" + ast.unparse(st.targets[0]),
+                                       reason="a module-level callable memoises its results: a later call gets the object an earlier call (or its caller) may have modified"))
+                    obs[-1].function = mname
     if n_funcs < floor:
         raise AnalysisError("shared-state scan reached only %d functions (floor %d)" % (n_funcs, floor))
     return obs
@@ -1168,13 +1179,27 @@ def prov_after_branch_order(repo, tier="quick"):
                     c = is_call(base[2], "_find_next_character")
                     if c and len(c[0]) >= 2 and c[0][1] in (("list", (("const", ")"),)), ("const", ")"), ("tuple", (("const", ")"),))):
                         after_brace = True
+                # ... or "directly after the multiplier number": the scan for the end of the number, which stops at the symbols too
+                after_number = False
+                cnum = is_call(idx, "_find_next_character")
+                if cnum and len(cnum[0]) >= 3:
+                    stops = {x[1] for x in walk_term(cnum[0][1]) if isinstance(x, tuple) and len(x) == 2 and x[0] == "const" and isinstance(x[1], str)}
+                    from_brace = any(isinstance(x, tuple) and x and ((x[0] == "call" and is_call(x, "_find_next_character") and x is not idx) or x[0] == "var")
+                                     for x in walk_term(cnum[0][2]))
+                    after_number = set(table) <= stops | {k for k in table} and from_brace and (set(table) & stops == set(table) or "keys" in show(cnum[0][1]))
                 if bar_pos:
                     why = "the symbol at %s stands in front of a branch multiplier: it is the order between the copies, not of the following bond" % show(idx)
                 elif after_brace and not bar_neg:
                     why = ("the symbol directly after the brace is taken as the order of the following bond without excluding that a multiplier follows it "
                            "(`)=|n`: then it is the order between the copies)")
-                else:
+                elif after_brace or after_number:
                     ok = True
+                else:
+                    obs.append(ob_undecided(oid, fi, d.ast, construct="%s = table[pattern[%s]]" % (ovar, show(idx)[:80]), instance="source",
+                                            reason="the symbol is read at a position that is neither directly behind the closing brace nor directly behind the "
+                                                   "multiplier number; the rule cannot decide whether that is the symbol of the following bond "
+                                                   "(`)=(`: another brace can stand between the symbol and the next node)"))
+                    continue
         (obs.append(ob_ok(oid, fi, d.ast, construct="%s = table[pattern[i]] if pattern[i] in table, i right after the brace / the multiplier" % ovar, instance="source",
                           reason="the symbol after the branch is the order of the next bond")) if ok else
          obs.append(ob_fail(oid, fi, d.ast, construct=why, instance="source",
